@@ -55,6 +55,14 @@ class KindError(Exception):
     error_kind = "custom_kind"
 
 
+class RefinedSessionLost(SessionLostError):
+    """Application subclass of a typed framework error: the error kind is inherited, not redeclared."""
+
+
+class RefinedKindError(KindError):
+    """Subclass of a custom kind-declaring error (kind inherited through the MRO)."""
+
+
 EXC: dict[str, type[BaseException]] = {
     "ValueError": ValueError,
     "KeyError": KeyError,
@@ -68,6 +76,8 @@ EXC: dict[str, type[BaseException]] = {
     "ServerDrainingError": ServerDrainingError,
     "ArrowInvalid": pa.ArrowInvalid,
     "PermissionError": PermissionError,
+    "RefinedSessionLost": RefinedSessionLost,
+    "RefinedKindError": RefinedKindError,
 }
 
 EVENTS: list[Any] = []  # server-side hook log (in-process transports only)
